@@ -78,6 +78,7 @@ RootState ==
     perm   |-> [t \in Accounts |-> IF t = o THEN "owner" ELSE "none"],
     status |-> [t \in Accounts |-> IF t = o THEN "active" ELSE "none"],
     req    |-> [t \in Accounts |-> "none"],                      \* pending request of t: none | join | remove
+    rgen   |-> [t \in Accounts |-> 0],                           \* key generation a pending join request was filed under (RequestRecord.KeyRecordId)
     inv    |-> [i \in InvSet |-> NoInv],
     opts   |-> "unset",
     cf     |-> << {o} >>,                                        \* per generation: principals a ciphertext exists for
@@ -200,7 +201,7 @@ StepAccountRemove(x, a, c, ctx) ==        \* ValidateAccountRemove / applyAccoun
              ELSE IF t # "-" /\ x.perm[t] = "admin" /\ pa # "owner" THEN "AR.admin/Insuff"
              ELSE RotWhy(x, R, c.v, ctx.rot)
       y == IF t = "-" THEN x
-           ELSE [x EXCEPT !.perm[t] = "none", !.status[t] = "removed", !.req[t] = "none"]
+           ELSE [x EXCEPT !.perm[t] = "none", !.status[t] = "removed", !.req[t] = "none", !.rgen[t] = 0]
   IN R3(why, IF why = "ok" THEN NewGen(y, Rcp(x, R, c.v), ctx.rot) ELSE x, IF why = "ok" THEN [ctx EXCEPT !.rot = TRUE] ELSE ctx)
 
 StepReadKeyChange(x, a, c, ctx) ==        \* ValidateReadKeyChange / applyReadKeyChange
@@ -218,7 +219,7 @@ StepRequestJoin(x, a, c, ctx) ==          \* ValidateRequestJoin / applyRequestJ
              ELSE IF c.v = "badsig" THEN "RJ.sig/BadSig"
              ELSE "ok"
   IN R3(why, IF why = "ok"
-             THEN [x EXCEPT !.ent[a] = TRUE, !.perm[a] = "none", !.status[a] = "joining", !.req[a] = "join"]
+             THEN [x EXCEPT !.ent[a] = TRUE, !.perm[a] = "none", !.status[a] = "joining", !.req[a] = "join", !.rgen[a] = Len(x.cf)]
              ELSE x, IF why = "ok" THEN [ctx EXCEPT !.fr = TRUE] ELSE ctx)
 
 StepInviteJoin(x, a, c, ctx) ==           \* ValidateInviteJoin / applyInviteJoinWithoutApprove
@@ -232,7 +233,7 @@ StepInviteJoin(x, a, c, ctx) ==           \* ValidateInviteJoin / applyInviteJoi
              ELSE IF c.v = "nokey" THEN "IJ.nokey/BadKey"
              ELSE "ok"
       np == IF c.p = "none" THEN x.inv[c.i].perm ELSE c.p
-      y == [x EXCEPT !.ent[a] = TRUE, !.perm[a] = np, !.status[a] = "active", !.req[a] = "none"]
+      y == [x EXCEPT !.ent[a] = TRUE, !.perm[a] = np, !.status[a] = "active", !.req[a] = "none", !.rgen[a] = 0]
   IN R3(why, IF why = "ok"
              THEN (IF Der(x, c.i, Len(x.cf)) THEN GiveKey(y, a) ELSE y)   \* the joiner re-encrypts the key the invite gives
              ELSE x, ctx)
@@ -249,7 +250,7 @@ StepRequestAccept(x, a, c, ctx) ==        \* ValidateRequestAccept / applyReques
              ELSE IF c.p = "admin" /\ pa # "owner" THEN "RA.admin/Insuff"
              ELSE "ok"
   IN R3(why, IF why = "ok"
-             THEN GiveKey([x EXCEPT !.ent[q] = TRUE, !.perm[q] = c.p, !.status[q] = "active", !.req[q] = "none"], q)
+             THEN GiveKey([x EXCEPT !.ent[q] = TRUE, !.perm[q] = c.p, !.status[q] = "active", !.req[q] = "none", !.rgen[q] = 0], q)
              ELSE x, ctx)
 
 StepRequestDecline(x, a, c, ctx) ==       \* ValidateRequestDecline / applyRequestDecline
@@ -257,7 +258,7 @@ StepRequestDecline(x, a, c, ctx) ==       \* ValidateRequestDecline / applyReque
       why == IF ~Mgr(x.perm[a]) THEN "RD.author/Insuff"
              ELSE IF ~(q \in Accounts /\ x.req[q] = "join" /\ ~(ctx.fr /\ q = a)) THEN "RD.norequest/NoReq"
              ELSE "ok"
-  IN R3(why, IF why = "ok" THEN [x EXCEPT !.status[q] = "declined", !.req[q] = "none"] ELSE x, ctx)
+  IN R3(why, IF why = "ok" THEN [x EXCEPT !.status[q] = "declined", !.req[q] = "none", !.rgen[q] = 0] ELSE x, ctx)
 
 StepRequestCancel(x, a, c, ctx) ==        \* ValidateRequestCancel / applyRequestCancel
   LET q == c.q
@@ -265,7 +266,7 @@ StepRequestCancel(x, a, c, ctx) ==        \* ValidateRequestCancel / applyReques
              ELSE IF q # a THEN "RC.notmine/Insuff"
              ELSE "ok"
   IN R3(why, IF why = "ok"
-             THEN [x EXCEPT !.status[a] = IF x.req[a] = "join" THEN "canceled" ELSE "active", !.req[a] = "none"]
+             THEN [x EXCEPT !.status[a] = IF x.req[a] = "join" THEN "canceled" ELSE "active", !.req[a] = "none", !.rgen[a] = 0]
              ELSE x, ctx)
 
 StepRequestRemove(x, a, c, ctx) ==        \* ValidateRequestRemove / applyRequestRemove
